@@ -159,7 +159,7 @@ def run(ctx):
     rng = np.random.default_rng(ctx.seed)
     fails = set()
     n_cost = n_solved = 0
-    solve_budget = 60 if thorough else 10
+    solve_budget = 160 if thorough else 10
     order = rng.permutation(len(edges))
     cache = {}
     for idx in order:
